@@ -4,6 +4,25 @@ import json, subprocess
 ALL = ["C%02d" % i for i in range(1, 21)]
 T = "deterministic simulation (seeded schedule + fault search over real code under a controlled scheduler)"
 CHECKS = {
+ "C03": dict(engine="T", tech=T + "; per-listener order / exactly-once / same-allocation oracle",
+   text="1-2 producers (send, send_with, send_with_async, send_derived, reserve+try_send_reserved) against 1-3 executor-like listeners created before the first send, on all six Multi kinds x BUFFER_SIZE {2,4,8} x MAX_STREAMS {1,2,4}, fewer events than the buffer; oracle per listener: yielded multiset == accepted multiset, per-producer order, nothing invented, intact payload, and the same payload address across listeners.",
+   note="SC memory model; the log channel maps a real file under /tmp per run.", ref="DESIGN.md §6 C03"),
+ "C06": dict(engine="D", tech="deterministic simulation under virtual time (tokio current-thread runtime, paused clock), seeded workload / close-instant search",
+   text="Whole Uni (5 kinds, MAX_STREAMS 1-2) and Multi (6 kinds, 1-3 listeners, optional individual flush_and_cancel_executor) objects with the four executor kinds, concurrency limits 1-4, with/without futures timeout, two instrument settings; events sent with seeded virtual gaps, per-event processing delays; close(Duration::ZERO) issued at a seeded instant; oracle evaluated in the same poll in which close() returns: every accepted event fully processed by every entitled stream, running_streams_count()==0, !is_channel_open(), nothing pending; and nothing discarded one virtual hour later.",
+   note="Single current-thread runtime under virtual time; multi-threaded runtimes are not simulated. A timeout-cancelled item counts as processed.", ref="DESIGN.md §6 C06"),
+ "C09": dict(engine="T", tech=T + "; total-order / partition oracle over slot addresses",
+   text="1-3 publisher threads (send, send_with) on the log channel, 0-3 pre-existing events, late subscriptions (new / old+new joined / old+new split) issued by another thread at seeded instants, listeners driven like executors; oracle: one total order H = order of slot addresses, consistent with producer order; joined listener yields exactly H; split pair partitions H; new-only listener yields a suffix of H containing everything sent after the subscription returned; every yield is a gapless duplicate-free slice of H with intact payloads.",
+   note="Real sparse file + mmap under /tmp per run; no kernel fault injected. SC memory model.", ref="DESIGN.md §6 C09"),
+ "C11": dict(engine="D", tech="deterministic simulation under virtual time (tokio paused clock), seeded item sequences",
+   text="StreamExecutor fed from a controllable stream: item sequences over {ok, error, slow (> timeout), slow-then-error} of length 0-24, the four executor kinds, all four instrument settings, concurrency limit 1-8, with/without futures timeout, seeded feed gaps; oracle: every item started, on_err exactly once per failed (not timed-out) item, timed-out futures cancelled, max in-flight <= limit at every virtual instant, and with metrics on ok+timed_out+failed == items with the expected split.",
+   note="Current-thread runtime under virtual time only; item delays never equal the timeout.", ref="DESIGN.md §6 C11"),
+ "C12": dict(engine="D", tech="deterministic simulation under virtual time (tokio paused clock), seeded workloads and close/cancel instants",
+   text="Three scenario families: raw StreamExecutors (close callback exactly once, after the last item, status StreamEnded / ProgrammaticallyEnded only if scheduled, finish >= start), whole Unis (user close callback exactly once after all MAX_STREAMS executors finished) and Multis (each listener's callback once, after its last item; individually cancelled executors).",
+   note="The sequential old->new transition of the log channel's oldies executors is not yet driven.", ref="DESIGN.md §6 C12"),
+ "C17": dict(engine="T", tech=T + "; suffix/prefix/gapless oracle + pool capacity after quiescence",
+   text="One producer fanning out to 2-3 listeners alive throughout while a churn thread creates and/or drops listeners mid-run on every Multi kind (MAX_STREAMS 4); scheduling points inside create_stream_id, report_stream_dropped, the live-list rebuild and the fan-out loop; oracle: throughout-listeners yield everything exactly once in order, the added one a gapless suffix, the removed one a gapless run; after everything is consumed and released BUFFER_SIZE sends are accepted again (pool kinds), classified as leaked vs held until stream-id reuse.",
+   note="Events left over by an earlier holder of a stream id are C10's subject and set aside. SC memory model.", ref="DESIGN.md §6 C17"),
+
  "C01": dict(engine="T", tech=T + "; conservation oracle over the recorded history",
    text="Seeded search over schedules and faults: 1-3 producer threads (send, send_with, send_with_async, reserve+try_send_reserved) against 1-3 executor-like stream drivers on all five Uni kinds x BUFFER_SIZE {2,4,8} x MAX_STREAMS {1,2,4}, real channel code under a controlled scheduler (every atomic operation and instrumented plain access is a scheduling point), faults: stalls, spurious weak-CAS failures, spurious polls, waker churn, sequence counters next to the u32 wrap. Oracle: multiset of yielded ids == multiset of accepted ids, rejected inputs handed back intact and un-invoked. Sampling, not proof.",
    note="Trusted: the harness (scheduler, wakers, ledger), shuttle's coroutine runtime, SC-at-atomics memory model; weak-memory effects are not explored.", ref="DESIGN.md §6 C01"),
